@@ -73,15 +73,22 @@ def arc_geometry(sx, sy, rad, a0, m, cw, aligned=False):
 
 def check_ij(arc):
     """Returns (nsegments, violation message | None)."""
+    H.reset_pkg_state()      # every input starts from the package's import-time module state
     sx, sy, rad, a0, m, cw = arc
     cx, cy, sweep, sgn, ex, ey = arc_geometry(*arc)
     i, j = -rad * math.cos(a0), -rad * math.sin(a0)
     h = handlers()
     setpos(h, sx, sy)
     try:
-        pts = h.planArc(ex, ey, i, j, cw)
+        pts = list(h.planArc(ex, ey, i, j, cw))
+        again = list(h.planArc(ex, ey, i, j, cw))
     except Exception as e:   # noqa
         return 0, "C16 planArc raised %s: %s" % (type(e).__name__, e)
+    if again != pts:
+        # the samples are a function of the arc: planning the same arc a second time in the same run (a file repeats
+        # its arcs layer after layer) must give the same points
+        return 0, ("C16 the same arc planned twice from the same position gives %d values the first time and %d the "
+                   "second (%s)" % (len(pts), len(again), "a prefix of them equal" if again[:len(pts)] == pts else "different"))
     if len(pts) < 2 or len(pts) % 2:
         return 0, "C16 planArc returned %d values" % len(pts)
     P = [(pts[q], pts[q + 1]) for q in range(0, len(pts), 2)]
@@ -147,6 +154,7 @@ def mistyped(a, b, r, cw):
 
 
 def check_r(ch):
+    H.reset_pkg_state()      # every input starts from the package's import-time module state
     a, b, r, cw = ch
     h = handlers()
     setpos(h, a[0], a[1])
